@@ -13,6 +13,7 @@ of constructs it examined.
  PARAM-CLAMP      a caller's argument silently replaced by its clamp to a constant range (min(max(x, A), B), np.clip(x, A, B)) before it is used / stored;
  VALIDATOR-WRITES a validator (`_assert*`, `_guard*`, `_validate*`, `_check*`) overwrites an attribute with a constant under a condition on the data;
  NONE-MISMATCH    `default if a is None else f(b)`: the presence test is made on one argument and the value is taken from another;
+ INIT-DERIVED     a private attribute derived once in __init__ from a public, caller-settable attribute and read by the methods instead of it;
  DTYPE-FROM-ARG   an output buffer typed with `dtype=<argument>.dtype` and filled with computed values.
 """
 from __future__ import annotations
@@ -383,14 +384,51 @@ def dtype_from_arg(chk, prog, files):
     return n
 
 
+# -------------------------------------------------------------------------------------------------------------- INIT-DERIVED
+def init_derived(chk, prog, files):
+    """__init__ stores `self._p = g(self.q)` for a PUBLIC, caller-settable attribute q, and the other methods read self._p instead of q without ever
+    re-deriving it: assigning q on a live object (a documented way of changing the frame, the date ...) has no effect on the answers any more, which then depend
+    on how the object was built rather than on its current (date, place, frame)."""
+    n = 0
+    for rel in sorted(files):
+        m = prog.modules.get(rel)
+        if m is None:
+            continue
+        for c in m.classes.values():
+            init = c.methods.get("__init__")
+            if init is None:
+                continue
+            selfn = init.params[0] if init.params else "self"
+            public_set = {x.attr for x in ast.walk(init.node) if isinstance(x, ast.Attribute) and isinstance(x.ctx, ast.Store) and isinstance(x.value, ast.Name)
+                          and x.value.id == selfn and not x.attr.startswith("_")}
+            for s in _own_nodes(init.node):
+                tg = s.targets[0] if isinstance(s, ast.Assign) and len(s.targets) == 1 else (s.target if isinstance(s, ast.AnnAssign) else None)
+                val = getattr(s, "value", None)
+                if not (isinstance(tg, ast.Attribute) and isinstance(tg.value, ast.Name) and tg.value.id == selfn and tg.attr.startswith("_") and val is not None):
+                    continue
+                srcs = sorted({x.attr for x in ast.walk(val) if isinstance(x, ast.Attribute) and isinstance(x.value, ast.Name) and x.value.id == selfn and x.attr in public_set})
+                if not srcs:
+                    continue
+                n += 1
+                writers = [g for g in c.methods.values() if g is not init and any(isinstance(x, ast.Attribute) and x.attr == tg.attr and isinstance(x.ctx, ast.Store) for x in ast.walk(g.node))]
+                readers = [g for g in c.methods.values() if g is not init and any(isinstance(x, ast.Attribute) and x.attr == tg.attr and isinstance(x.ctx, ast.Load) for x in ast.walk(g.node))]
+                if readers and not writers:
+                    chk.finding("INIT-DERIVED", rel, init.qname, "%s" % stmt_text(s)[:70],
+                                "`self.%s` is derived once, in __init__, from the public attribute%s %s, and %s read(s) it instead: assigning `%s` on a live object no longer "
+                                "changes the answers, which then depend on how the object was built" % (tg.attr, "s" if len(srcs) > 1 else "", ", ".join("self." + a for a in srcs),
+                                                                                                      ", ".join(g.qname for g in readers[:2]), srcs[0]), line=s.lineno)
+    chk.counts["INIT-DERIVED.derived"] = chk.counts.get("INIT-DERIVED.derived", 0) + n
+    return n
+
+
 LINTS = {
     "ALL-AS-NONNULL": all_as_nonnull, "SHAPE-AMBIGUOUS": shape_ambiguous, "NORM-AXIS": norm_axis, "NULL-TOL": null_tol, "ZERO-PATCH": zero_patch, "NAN-SWALLOW": nan_swallow,
-    "SWALLOW-ROW": swallow_row, "PARAM-CLAMP": param_clamp, "VALIDATOR-WRITES": validator_writes, "NONE-MISMATCH": none_mismatch, "DTYPE-FROM-ARG": dtype_from_arg,
+    "SWALLOW-ROW": swallow_row, "PARAM-CLAMP": param_clamp, "VALIDATOR-WRITES": validator_writes, "NONE-MISMATCH": none_mismatch, "DTYPE-FROM-ARG": dtype_from_arg, "INIT-DERIVED": init_derived,
 }
 # rule -> owning properties (None: every property on its anchor files).  PARAM-CLAMP and NAN-SWALLOW contradict only properties that promise an answer for every
 # input of a range / a rejection of invalid input.
 OWNERS = {"ALL-AS-NONNULL": None, "SHAPE-AMBIGUOUS": None, "NORM-AXIS": None, "NULL-TOL": None, "ZERO-PATCH": None, "NAN-SWALLOW": {"C10", "C11", "C09", "C01"}, "SWALLOW-ROW": None,
-          "PARAM-CLAMP": {"C14", "C15", "C16", "C17", "C20"}, "VALIDATOR-WRITES": None, "NONE-MISMATCH": None, "DTYPE-FROM-ARG": None}
+          "PARAM-CLAMP": {"C14", "C15", "C16", "C17", "C20"}, "VALIDATOR-WRITES": None, "NONE-MISMATCH": None, "DTYPE-FROM-ARG": None, "INIT-DERIVED": {"C14", "C15", "C06", "C19"}}
 
 FIXTURE = '''
 def _lint2_all(acc, mag):
@@ -429,6 +467,11 @@ def lint2_clamp(height):
     height = min(max(height, LOW_LIMIT), 850.0)
     return height
 class _Lint2Fixture:
+    def __init__(self, frame):
+        self.frame = frame
+        self._enu = self.frame.upper() == 'ENU'
+    def answer(self):
+        return 1 if self._enu else 2
     def _guard_clauses(self):
         if abs(self.latitude) == 90:
             self.longitude = 0.0
